@@ -2010,6 +2010,122 @@ def _rule4(ctx, rep):
             )
 
 
+def _rule5(ctx, rep):
+    """the known targets a bumped algorithm is scheduled for (added after seeded change C15-8: db.targets() dropped every
+    name that merely starts with "__"; such targets were silently left out when their algorithm's version changed)"""
+    prog = ctx.prog
+    f = prog.nfunc('dawgie.db.targets')
+    rep.analysed(f)
+    with rep.rule(
+        'R-C15-5',
+        'db.targets() keeps a stored target name unless it is a reserved marker - starts AND ends with "__" - or the full list is asked for: the filter is evaluated for all 8 combinations of (starts with __, ends with __, fulllist)',
+        floor=1,
+        breaks='a version change reschedules its owner for fewer (or more) targets than the database knows',
+    ) as r:
+        full = f.params()[0] if f.params() else 'fulllist'
+
+        class NU(Exception):
+            pass
+
+        def truth(e, var, S, E, F):
+            if isinstance(e, ast.BoolOp):
+                vals = [truth(v, var, S, E, F) for v in e.values]
+                return all(vals) if isinstance(e.op, ast.And) else any(vals)
+            if isinstance(e, ast.UnaryOp) and isinstance(e.op, ast.Not):
+                return not truth(e.operand, var, S, E, F)
+            if isinstance(e, ast.Name) and e.id == full:
+                return F
+            if isinstance(e, ast.Call) and isinstance(e.func, ast.Attribute) and isinstance(e.func.value, ast.Name) and e.func.value.id == var and e.args and isinstance(e.args[0], ast.Constant) and e.args[0].value == '__':
+                if e.func.attr == 'startswith':
+                    return S
+                if e.func.attr == 'endswith':
+                    return E
+            if isinstance(e, ast.Compare) and len(e.ops) == 1 and isinstance(e.comparators[0], ast.Constant) and e.comparators[0].value == '__' and isinstance(e.left, ast.Subscript) and isinstance(e.left.value, ast.Name) and e.left.value.id == var and isinstance(e.ops[0], (ast.Eq, ast.NotEq)):
+                sl = norm(e.left.slice)
+                v = S if sl == ':2' else (E if sl == '-2:' else None)
+                if v is not None:
+                    return v if isinstance(e.ops[0], ast.Eq) else not v
+            raise NU(norm(e))
+
+        def kept(e, S, E, F, depth=0):
+            """is a stored name with (S, E) in the value of e, given fulllist = F"""
+            if depth > 5:
+                raise NU('depth')
+            if isinstance(e, ast.Name):
+                defs = [d.value for d in f.own_nodes() if isinstance(d, ast.Assign) and any(isinstance(t, ast.Name) and t.id == e.id for t in d.targets)]
+                if len(defs) == 1:
+                    return kept(defs[0], S, E, F, depth + 1)
+                raise NU(e.id)
+            if isinstance(e, ast.Call) and isinstance(e.func, ast.Name) and e.func.id in ('list', 'sorted', 'tuple', 'set') and e.args:
+                return kept(e.args[0], S, E, F, depth + 1)
+            if isinstance(e, ast.Call) and isinstance(e.func, ast.Name) and e.func.id == 'filter' and len(e.args) == 2 and isinstance(e.args[0], ast.Lambda):
+                lam = e.args[0]
+                return kept(e.args[1], S, E, F, depth + 1) and truth(lam.body, lam.args.args[0].arg, S, E, F)
+            if isinstance(e, (ast.ListComp, ast.GeneratorExp, ast.SetComp)) and len(e.generators) == 1 and isinstance(e.generators[0].target, ast.Name) and isinstance(e.elt, ast.Name) and e.elt.id == e.generators[0].target.id:
+                g = e.generators[0]
+                return kept(g.iter, S, E, F, depth + 1) and all(truth(c, g.target.id, S, E, F) for c in g.ifs)
+            if isinstance(e, ast.IfExp):
+                return kept(e.body, S, E, F, depth + 1) if truth(e.test, '', S, E, F) else kept(e.orelse, S, E, F, depth + 1)
+            if isinstance(e, ast.Call) and isinstance(e.func, ast.Attribute) and e.func.attr == 'targets':
+                return True  # the back end's own list
+            raise NU(norm(e)[:60])
+
+        rets = [n for n in f.own_nodes() if isinstance(n, ast.Return) and n.value is not None]
+        r.instance()
+        key = f'{f.qname}:reserved-names-only'
+        if len(rets) != 1:
+            r.fail(key, where(f), 'db.targets() does not end in a single return of the filtered list')
+        else:
+            try:
+                wrong = []
+                for S in (False, True):
+                    for E in (False, True):
+                        for F in (False, True):
+                            got = kept(rets[0].value, S, E, F)
+                            want = F or not (S and E)
+                            if got != want:
+                                wrong.append((S, E, F, got))
+                r.check(
+                    not wrong,
+                    key,
+                    where(f, rets[0]),
+                    'kept iff fulllist or not (startswith("__") and endswith("__")) for all 8 cases',
+                    f'db.targets() is wrong for (starts with __, ends with __, fulllist, kept) = {wrong}: ordinary target names are dropped (or reserved ones kept)',
+                )
+            except NU as e_:
+                r.fail(key, where(f, rets[0]), f'filter of db.targets() not understood: {e_}')
+
+
+def _rule6(ctx, rep):
+    """the six operators are Version's own (added after seeded change C15-9: Version.__ne__ was deleted "because python 3
+    derives it from __eq__"; StateVector is class StateVector(Version, dict), so `!=` fell through to dict.__ne__ and
+    compared contents: two state vectors were neither equal nor different, and < / > - written with __ne__ - followed)"""
+    prog = ctx.prog
+    with rep.rule(
+        'R-C15-6',
+        'dawgie.Version defines all six rich comparisons itself, and no class that derives from it together with another base lists that base first or re-defines one of them: the operators of a versioned object are always the version order',
+        floor=2,
+        breaks='for a versioned class with a second base (StateVector is also a dict) a missing operator is taken from that base: the order is no longer total and the operators disagree',
+    ) as r:
+        V_ = 'dawgie.Version'
+        OPS = ('__eq__', '__ne__', '__lt__', '__le__', '__gt__', '__ge__')
+        vc = prog.cls(V_)
+        r.instance()
+        missing = [o for o in OPS if o not in vc.methods]
+        r.check(not missing, f'{V_}:defines-all-operators', f'{vc.module.relpath}:{vc.node.lineno}', 'six operators defined on Version', f'{V_} no longer defines {missing}: subclasses with a second base (dict) take them from that base')
+        for q, c in sorted(prog.classes.items()):
+            if V_ not in c.bases or len(c.bases) < 2:
+                continue
+            r.instance()
+            probs = []
+            if c.bases[0] != V_:
+                probs.append(f'bases {c.bases}: Version is not first in the MRO')
+            over = [o for o in OPS if o in c.methods]
+            if over:
+                probs.append(f're-defines {over}')
+            r.check(not probs, f'{q}:version-operators-win', f'{c.module.relpath}:{c.node.lineno}', 'Version first, no operator re-defined', f'{q}: ' + '; '.join(probs))
+
+
 def check(ctx):
     rep = Report(
         PID,
@@ -2036,6 +2152,8 @@ def check(ctx):
     _rule2(ctx, rep)
     _rule3(ctx, rep)
     _rule4(ctx, rep)
+    _rule5(ctx, rep)
+    _rule6(ctx, rep)
     return rep
 
 
@@ -2044,6 +2162,9 @@ _S = 'pl/schedule.py'
 _PV = 'pl/version.py'
 
 VARIANTS = [
+    V('Version.__ne__ renamed away', 'B', '__init__.py', 'Version.__ne__', 'def __ne__(self, other):', 'def _differs(self, other):', 'R-C15-6'),
+    V('targets drops every name starting with a dunder', 'B', 'db/__init__.py', 'targets', "not (s.startswith('__') and s.endswith('__'))", "not s.startswith('__')", 'R-C15-5'),
+    V('targets as a comprehension', 'N', 'db/__init__.py', 'targets', "list(\n        filter(\n            lambda s: fulllist or not (s.startswith('__') and s.endswith('__')),\n            _db_in_use().targets(),\n        )\n    )", "[s for s in _db_in_use().targets() if fulllist or not s.startswith('__') or not s.endswith('__')]", None),
     V('build shares one initial todo set between nodes', 'B', 'pl/schedule.py', 'build', "dawgie.util.fifo.Unique(\n                        ['__all__'] if _is_asp(n) else trglist\n                    ),", 'trglist,', 'R-C15-4'),
     V('build constructs the set in either arm', 'N', 'pl/schedule.py', 'build', "dawgie.util.fifo.Unique(\n                        ['__all__'] if _is_asp(n) else trglist\n                    ),", "dawgie.util.fifo.Unique(['__all__']) if _is_asp(n) else dawgie.util.fifo.Unique(trglist),", None),
     # ---- R-C15-1
